@@ -18,5 +18,6 @@ require (
 	github.com/pborman/uuid v1.2.1
 	github.com/sirupsen/logrus v1.8.1
 	github.com/tendermint/go-wire v0.16.0
+	github.com/tendermint/tmlibs v0.9.0
 	golang.org/x/crypto v0.0.0-20210322153248-0c34fe9e7dc2
 )
